@@ -674,38 +674,49 @@ class TwoElecRecursionsAnyL:
         sizes = ["la", "lb", "lc", "ld"]
         ls = [G.Aff.var(n) for n in sizes]
         L = ls[0] + ls[1] + ls[2] + ls[3]
-        C = G.Ctx(sizes)
-        G.CTX[0] = C
-        seen = {}
-
-        def boys(orders, T):
-            seen["boys"] = (orders, T)
-            Tarr = np.asarray(T, dtype=object)
-            if not isinstance(orders, G.GIota) or orders.axis != 0 or orders.ndim != Tarr.ndim or Tarr.shape[0] != 1:
-                raise alg.Undecided("Boys function called with orders / argument of an unexpected form")
-            slot = Tarr.ndim
-            data = np.empty(Tarr.shape, dtype=object)
-            for pos in itertools.product(*[range(n) for n in Tarr.shape]):
-                data[pos] = C.named_atom("F", G.Aff.var("p%d" % slot), pos[1:])
-            return G.GVal(data, {slot: [G.SymAxis(G.Aff.of(0), [orders.D])]}, [])
-
-        stage_end = None
         comps = np.array([[0, 0, 0]])
-        try:
-            with bind.patched((mod, "np", G.GNp(mod.np)), (mod, "range", G.grange)):
-                args = [boys]
-                for i in range(4):
-                    args += [cen[i], ls[i], comps, ex[i], co[i]]
-                mod._compute_two_elec_integrals(*args)
-        except G.StageEnd as e:
-            stage_end = str(e)
-        finally:
-            G.CTX[0] = None
-        pfx = "anyLeri"
+
+        def body(C_):
+            seen_ = {}
+
+            def boys(orders, T):
+                seen_["boys"] = (orders, T)
+                Tarr = np.asarray(T, dtype=object)
+                if not isinstance(orders, G.GIota) or orders.axis != 0 or orders.ndim != Tarr.ndim or Tarr.shape[0] != 1:
+                    raise alg.Undecided("Boys function called with orders / argument of an unexpected form")
+                slot = Tarr.ndim
+                data = np.empty(Tarr.shape, dtype=object)
+                for pos in itertools.product(*[range(n) for n in Tarr.shape]):
+                    data[pos] = C_.named_atom("F", G.Aff.var("p%d" % slot), pos[1:])
+                return G.GVal(data, {slot: [G.SymAxis(G.Aff.of(0), [orders.D])]}, [])
+
+            end = None
+            try:
+                with bind.patched((mod, "np", G.GNp(mod.np)), (mod, "range", G.grange)):
+                    args = [boys]
+                    for i in range(4):
+                        args += [cen[i], ls[i], comps, ex[i], co[i]]
+                    mod._compute_two_elec_integrals(*args)
+            except G.StageEnd as e:
+                end = str(e)
+            return end, seen_
+
+        def setup(C_):
+            C_.assumed.append(("ge", L, G.Aff.of(1)))  # precondition: not all four shells are s shells
+
+        cases = G.run_cases(sizes, body, setup)
+        for cn, (C, (stage_end, seen)) in enumerate(cases):
+            self._check_case(M, C, stage_end, seen, sizes, shape, cen, ex, ls, L, "anyLeri" if len(cases) == 1 else "anyLeri/case%d" % cn)
+
+    def _check_case(self, M, C, stage_end, seen, sizes, shape, cen, ex, ls, L, pfx):
+        import z3
+
+        Ka, Kb, Kc, Kd = shape["K"]
+        cp = _case_premise(C, sizes)
         M.true(pfx + "/recursion-stages-completed", stage_end is not None and C.ntab == 2, "the run reaches the contraction step with two tables filled (%s)" % stage_end)
         tails = list(itertools.product(range(Kd), range(Kb), range(Kc), range(Ka)))
         envb, _ = G._z3env()
-        prem0 = lambda env: [env("la") + env("lb") + env("lc") + env("ld") >= 1]
+        prem0 = lambda env: [env("la") + env("lb") + env("lc") + env("ld") >= 1] + (cp(env) if cp else [])
 
         def geom(tail):
             pd, pb, pc, pa = tail
